@@ -1054,13 +1054,24 @@ func vc16RunCase(t *testing.T, out *vh.Out, c vc16Case) {
 	for k := 1; k <= c.n; k++ {
 		acts[k] = "f"
 	}
-	prod := vcpOpenRep(t, h, vcpRepCfg{name: "producer", mal: 1, trk: 2, npp: 116, cache: 9000, actions: acts})
-	defer prod.close()
+	// the producer runs a while WITHOUT catchpoint tracking (real restart, commits of account changes) and then with it again:
+	// the files it produces afterwards must still be files its own label verifies
+	tr := vh.NewRng(c.seed*131 + 7)
+	togOff := 3 + tr.Intn(4)
+	togOn := togOff + 2 + tr.Intn(4)
+	prod := vcpOpenRep(t, h, vcpRepCfg{name: "producer", mal: 1, trk: 2, npp: 116, cache: 9000, onDisk: true, actions: acts})
+	defer func() { prod.close() }()
 	dumps := map[basics.Round]*vcpDump{0: vcpDumpLedger(t, prod.l, h.params)}
 	smallDir := t.TempDir()
 	for k, blk := range h.blocks {
 		prod.addBlock(blk)
 		prod.drain(basics.Round(k + 1))
+		if k+1 == togOff {
+			prod.reopen(false)
+		}
+		if k+1 == togOn {
+			prod.reopen(true)
+		}
 		d := vcpDumpLedger(t, prod.l, h.params)
 		if _, seen := dumps[d.round]; !seen && (uint64(d.round)+h.lookback)%h.interval == 0 {
 			vc16WriteSmallChunks(t, prod.l, h.params, filepath.Join(smallDir, fmt.Sprintf("%d.data", d.round)), 1)
@@ -1077,8 +1088,17 @@ func vc16RunCase(t *testing.T, out *vh.Out, c vc16Case) {
 	}
 	require.NotEmpty(t, rounds, "the producer created no catchpoint")
 	r := vh.NewRng(c.seed*31 + 16)
-	// the catchpoint to work with: one with later catchpoints after it when possible
-	rnd := rounds[r.Intn((len(rounds)+1)/2)]
+	// the catchpoint to work with: one whose accounts round lies after the period without tracking, with later catchpoints
+	// after it when possible
+	var after []basics.Round
+	for _, x := range rounds {
+		if uint64(x) > uint64(togOn)+h.lookback {
+			after = append(after, x)
+		}
+	}
+	require.NotEmpty(t, after, "no catchpoint after the period without tracking (%d..%d): %v", togOff, togOn, rounds)
+	rnd := after[r.Intn((len(after)+1)/2)]
+	t.Logf("producer without tracking during rounds %d..%d; catchpoints %v; using %d", togOff, togOn, rounds, rnd)
 	label := labels[rnd]
 	path := filepath.Join(prod.dir, "led", trackerdb.CatchpointDirName, trackerdb.MakeCatchpointFilePath(rnd))
 	secs := vc16ReadFile(t, path)
@@ -1234,7 +1254,7 @@ func vc16Generate() []vc16Case {
 	for i := 0; i < n; i++ {
 		interval := uint64(4 + r.Intn(5))
 		lookback := uint64(2 + r.Intn(9))
-		cs = append(cs, vc16Case{seed: r.U64() % 1_000_000, n: int(4*interval) + 8 + r.Intn(6), interval: interval, lookback: lookback})
+		cs = append(cs, vc16Case{seed: r.U64() % 1_000_000, n: int(4*interval) + 8 + int(lookback) + r.Intn(6), interval: interval, lookback: lookback})
 	}
 	return cs
 }
